@@ -344,7 +344,8 @@ arrival order) and `decodes log` (the decodes in the order in which they happene
   witness of finding K5.
 * `one_worker_in_order`, `one_worker_published_sequential`: with at most ONE worker every schedule decodes in arrival
   order against the sequentially threaded cache, for every codec and every `Canonical` worker program.
-* `one_worker_latest_template`: hence, for the IPFIX decoder model, C04 holds at the collector with one worker.  -/
+* `one_worker_latest_template`: hence, for the IPFIX decoder model, C04 holds at the collector with one worker;
+  `one_worker_latest_template_v9`: the same for the NetFlow v9 decoder model (`C05.v9Codec`, `Gen.netflowV9Worker`).  -/
 section Collector
 open Vflow.Pipeline Vflow.C12
 
@@ -956,6 +957,398 @@ theorem k5_history_wf :
     dataRecs k5MsgD = [[⟨12, 0, .ip [10, 0, 0, 9]⟩]] ∧
     wfHistoryLatest [] [] [([192, 0, 2, 1], k5MsgA), ([192, 0, 2, 1], k5MsgB),
       ([192, 0, 2, 1], ⟨1002, 0, 1, [.data k5TplA [[⟨[10, 0, 0, 9], false⟩]] []]⟩)] = false := by
+  decide +kernel
+
+/-! ### one worker, NetFlow v9: the same chain for the v9 instance of the pipeline's codec (`C05.v9Codec`)
+
+The twins of the IPFIX definitions over `Wire.V9.Msg` carry the suffix `V9`; `Ann`, `latest`, `latestOr`, `runAnn`,
+`refinement` are shared (one `Cache` serves both decoder models). -/
+
+open Wire.V9 in
+/-- the announcements of one flowset, in wire order -/
+def setAnnsV9 (a : Bytes) : FlowSet → List Ann
+  | .tpl ts _ => ts.map (fun t => (a, t.tid, t))
+  | .optTpl ts _ => ts.map (fun t => (a, t.tid, t))
+  | .data _ _ _ => []
+
+/-- the announcements of the flowsets of an export packet -/
+def setsAnnsV9 (a : Bytes) (sets : List Wire.V9.FlowSet) : List Ann := sets.flatMap (setAnnsV9 a)
+
+/-- the announcements of a history of (exporter, export packet) pairs, oldest first -/
+def histAnnsV9 (h : List (Bytes × Wire.V9.Msg)) : List Ann := h.flatMap (fun x => setsAnnsV9 x.1 x.2.sets)
+
+open Wire.V9 in
+/-- `Wire.V9.wfSet` without its only reference to a cache (RFC 3954 shape of the flowset) -/
+def wfSetShapeV9 : FlowSet → Bool
+  | .tpl ts pad => !ts.isEmpty && ts.all wfTemplate && (wfTplPad pad && wfSetLen (ts.map encodeTemplate).flatten pad)
+  | .optTpl ts pad => !ts.isEmpty && ts.all wfOptTemplate && (wfTplPad pad && wfSetLen (ts.map encodeOptTemplate).flatten pad)
+  | .data t records pad =>
+    decide (255 < t.tid) && decide (t.tid < 65536) &&
+    decide (0 < recLen t) && !records.isEmpty && records.all (wfRecord t) &&
+    (wfDataPad t pad && wfSetLen (records.map (encodeRecord t)).flatten pad)
+
+/-- a data flowset is encoded with the latest definition its exporter announced under its id -/
+def usesLatestV9 (c0 : Cache) (anns : List Ann) (a : Bytes) : Wire.V9.FlowSet → Bool
+  | .data t _ _ => latestOr c0 anns a t.tid == some t
+  | _ => true
+
+def wfSetsLatestV9 (c0 : Cache) (a : Bytes) : List Ann → List Wire.V9.FlowSet → Bool
+  | _, [] => true
+  | anns, fs :: rest => wfSetShapeV9 fs && usesLatestV9 c0 anns a fs && wfSetsLatestV9 c0 a (anns ++ setAnnsV9 a fs) rest
+
+def wfMsgLatestV9 (c0 : Cache) (a : Bytes) (anns : List Ann) (m : Wire.V9.Msg) : Bool :=
+  decide (m.count < 65536) && decide (m.upTime < 4294967296) && decide (m.secs < 4294967296) &&
+  decide (m.seq < 4294967296) && decide (m.srcId < 4294967296) && wfSetsLatestV9 c0 a anns m.sets
+
+/-- **the cache-free premise, NetFlow v9**: every export packet has the RFC 3954 shape and every data flowset is encoded
+with the latest definition announced before it, in arrival order, by the same exporter under the same id (`anns`: the
+announcements made before the history starts) -/
+def wfHistoryLatestV9 (c0 : Cache) : List Ann → List (Bytes × Wire.V9.Msg) → Bool
+  | _, [] => true
+  | anns, (a, m) :: h => wfMsgLatestV9 c0 a anns m && wfHistoryLatestV9 c0 (anns ++ setsAnnsV9 a m.sets) h
+
+/-- the records of the data flowsets of an export packet, each read with the template the flowset was encoded with, in
+wire order -/
+def dataRecsV9 (m : Wire.V9.Msg) : List Record :=
+  m.sets.flatMap (fun
+    | .data t records _ => records.map (Wire.expectedRecord t)
+    | _ => [])
+
+/-- the cache after a flowset is the cache after its announcements -/
+theorem applySetV9_cache (a : Bytes) (r : List Record) (c : Cache) (fs : Wire.V9.FlowSet) :
+    (Wire.V9.applySet a (r, c) fs).2 = runAnn c (setAnnsV9 a fs) := by
+  cases fs <;> simp [Wire.V9.applySet, setAnnsV9, insertAll_eq_runAnn, runAnn]
+
+theorem foldl_applySetV9 (a : Bytes) (sets : List Wire.V9.FlowSet) : ∀ (r : List Record) (c : Cache),
+    sets.foldl (Wire.V9.applySet a) (r, c) =
+      (r ++ dataRecsV9 ⟨0, 0, 0, 0, 0, sets⟩, runAnn c (setsAnnsV9 a sets)) := by
+  induction sets with
+  | nil => intro r c; simp [dataRecsV9, setsAnnsV9, runAnn]
+  | cons fs rest ih =>
+    intro r c
+    have h2 := applySetV9_cache a r c fs
+    have h1 : (Wire.V9.applySet a (r, c) fs).1 = r ++ dataRecsV9 ⟨0, 0, 0, 0, 0, [fs]⟩ := by
+      cases fs <;> simp [Wire.V9.applySet, dataRecsV9]
+    rw [List.foldl_cons, ← Prod.eta (Wire.V9.applySet a (r, c) fs), h1, h2, ih]
+    simp [dataRecsV9, setsAnnsV9, runAnn_append]
+
+/-- what the specification `Wire.V9.expected` says, in terms of announcements: the records are those of the data
+flowsets, the cache is the cache after the packet's announcements -/
+theorem expectedV9_eq (a : Bytes) (c : Cache) (m : Wire.V9.Msg) :
+    Wire.V9.expected a c m = (dataRecsV9 m, runAnn c (setsAnnsV9 a m.sets)) := by
+  simp only [Wire.V9.expected, foldl_applySetV9, List.nil_append]
+  rfl
+
+/-- announced template ids are 16-bit in a flowset of RFC shape -/
+theorem ids16_setAnnsV9 (a : Bytes) (fs : Wire.V9.FlowSet) (h : wfSetShapeV9 fs = true) : Ids16 (setAnnsV9 a fs) := by
+  intro e he
+  cases fs with
+  | tpl ts pad =>
+    simp only [setAnnsV9, List.mem_map] at he
+    obtain ⟨t, ht, rfl⟩ := he
+    simp only [wfSetShapeV9, Bool.and_eq_true, List.all_eq_true] at h
+    have := h.1.2 t ht
+    simp only [Wire.V9.wfTemplate, Bool.and_eq_true, decide_eq_true_eq] at this
+    exact this.1.1.1.1.1.1
+  | optTpl ts pad =>
+    simp only [setAnnsV9, List.mem_map] at he
+    obtain ⟨t, ht, rfl⟩ := he
+    simp only [wfSetShapeV9, Bool.and_eq_true, List.all_eq_true] at h
+    have := h.1.2 t ht
+    simp only [Wire.V9.wfOptTemplate, Bool.and_eq_true, decide_eq_true_eq] at this
+    exact this.1.1.1.1.1.1
+  | data t records pad => simp [setAnnsV9] at he
+
+/-- one flowset: judged against the concrete cache after the announcements `anns` = RFC shape ∧ encoded with the latest
+definition (`refinement`) -/
+theorem wfSetV9_eq (c0 : Cache) (a : Bytes) (anns : List Ann) (hi : Ids16 anns) (fs : Wire.V9.FlowSet) :
+    Wire.V9.wfSet a (runAnn c0 anns) fs = (wfSetShapeV9 fs && usesLatestV9 c0 anns a fs) := by
+  cases fs with
+  | tpl ts pad => simp [Wire.V9.wfSet, wfSetShapeV9, usesLatestV9]
+  | optTpl ts pad => simp [Wire.V9.wfSet, wfSetShapeV9, usesLatestV9]
+  | data t records pad =>
+    simp only [Wire.V9.wfSet, wfSetShapeV9, usesLatestV9, latestOr]
+    by_cases hid : t.tid < 65536
+    · rw [refinement anns a t.tid hi hid c0]
+      generalize decide (255 < t.tid) = b1
+      generalize decide (t.tid < 65536) = b2
+      generalize ((match latest anns a t.tid with | some t => some t | none => c0.lookup a t.tid) == some t) = b3
+      generalize decide (0 < Wire.V9.recLen t) = b4
+      generalize (!records.isEmpty) = b5
+      generalize records.all (Wire.V9.wfRecord t) = b6
+      generalize (Wire.V9.wfDataPad t pad && Wire.V9.wfSetLen (records.map (Wire.V9.encodeRecord t)).flatten pad) = b7
+      cases b1 <;> cases b2 <;> cases b3 <;> cases b4 <;> cases b5 <;> cases b6 <;> cases b7 <;> rfl
+    · simp [hid]
+
+theorem wfSetsV9_eq (c0 : Cache) (a : Bytes) (sets : List Wire.V9.FlowSet) : ∀ (anns : List Ann), Ids16 anns →
+    Wire.V9.wfSets a (runAnn c0 anns) sets = wfSetsLatestV9 c0 a anns sets := by
+  induction sets with
+  | nil => intro _ _; rfl
+  | cons fs rest ih =>
+    intro anns hi
+    simp only [Wire.V9.wfSets, wfSetsLatestV9, wfSetV9_eq c0 a anns hi, applySetV9_cache, ← runAnn_append]
+    cases hs : wfSetShapeV9 fs with
+    | false => simp
+    | true => rw [ih _ (ids16_append hi (ids16_setAnnsV9 a fs hs))]
+
+theorem ids16_setsAnnsV9 (c0 : Cache) (a : Bytes) (sets : List Wire.V9.FlowSet) : ∀ (anns : List Ann),
+    wfSetsLatestV9 c0 a anns sets = true → Ids16 (setsAnnsV9 a sets) := by
+  induction sets with
+  | nil => intro _ _ e he; simp [setsAnnsV9] at he
+  | cons fs rest ih =>
+    intro anns h
+    simp only [wfSetsLatestV9, Bool.and_eq_true] at h
+    have := ids16_append (ids16_setAnnsV9 a fs h.1.1) (ih _ h.2)
+    simpa [setsAnnsV9] using this
+
+theorem wfMsgV9_eq (c0 : Cache) (a : Bytes) (anns : List Ann) (hi : Ids16 anns) (m : Wire.V9.Msg) :
+    Wire.V9.wfMsg a (runAnn c0 anns) m = wfMsgLatestV9 c0 a anns m := by
+  simp only [Wire.V9.wfMsg, wfMsgLatestV9, wfSetsV9_eq c0 a m.sets anns hi]
+
+/-- **the two premises are one, NetFlow v9** (`refinement` lifted to histories of whole export packets): judged against
+the concrete cache as the sequential decoder leaves it (`v9WfHistory`, the premise of `v9_history_roundtrip`) = RFC shape ∧
+every data flowset encoded with the latest definition its exporter announced (`wfHistoryLatestV9`, no cache) -/
+theorem wfHistoryV9_eq_latest (c0 : Cache) (h : List (Bytes × Wire.V9.Msg)) : ∀ (anns : List Ann), Ids16 anns →
+    v9WfHistory (runAnn c0 anns) h = wfHistoryLatestV9 c0 anns h := by
+  induction h with
+  | nil => intro _ _; rfl
+  | cons x xs ih =>
+    intro anns hi
+    obtain ⟨a, m⟩ := x
+    simp only [v9WfHistory, wfHistoryLatestV9, wfMsgV9_eq c0 a anns hi, expectedV9_eq, ← runAnn_append]
+    cases hm : wfMsgLatestV9 c0 a anns m with
+    | false => simp
+    | true =>
+      simp only [wfMsgLatestV9, Bool.and_eq_true] at hm
+      rw [ih _ (ids16_append hi (ids16_setsAnnsV9 c0 a m.sets anns hm.2))]
+
+theorem v9ExpectedRun_cache (h : List (Bytes × Wire.V9.Msg)) : ∀ c : Cache,
+    (v9ExpectedRun c h).2 = runAnn c (histAnnsV9 h) := by
+  induction h with
+  | nil => intro c; rfl
+  | cons x xs ih =>
+    intro c
+    obtain ⟨a, m⟩ := x
+    simp only [v9ExpectedRun, ih, expectedV9_eq]
+    simp [histAnnsV9, runAnn_append]
+
+/-- the k-th export packet of a well-formed history is well formed against the cache the first k packets leave -/
+theorem wfHistoryV9_index (h : List (Bytes × Wire.V9.Msg)) : ∀ (k : Nat) (c : Cache) (a : Bytes) (m : Wire.V9.Msg),
+    v9WfHistory c h = true → h[k]? = some (a, m) →
+    v9WfHistory c (h.take k) = true ∧ Wire.V9.wfMsg a (v9ExpectedRun c (h.take k)).2 m = true := by
+  induction h with
+  | nil => intro k c a m _ hk; simp at hk
+  | cons x xs ih =>
+    intro k c a m hw hk
+    obtain ⟨a0, m0⟩ := x
+    simp only [v9WfHistory, Bool.and_eq_true] at hw
+    cases k with
+    | zero =>
+      simp at hk
+      obtain ⟨rfl, rfl⟩ := hk
+      exact ⟨rfl, hw.1⟩
+    | succ k =>
+      simp at hk
+      obtain ⟨h1, h2⟩ := ih k _ a m hw.2 hk
+      simp only [List.take_succ_cons, v9WfHistory, v9ExpectedRun, Bool.and_eq_true]
+      exact ⟨⟨hw.1, h1⟩, h2⟩
+
+/-- the j-th flowset of a packet of the history uses the latest definition announced before it -/
+theorem wfSetsLatestV9_index (c0 : Cache) (a : Bytes) (sets : List Wire.V9.FlowSet) :
+    ∀ (j : Nat) (anns : List Ann) (fs : Wire.V9.FlowSet),
+    wfSetsLatestV9 c0 a anns sets = true → sets[j]? = some fs →
+    usesLatestV9 c0 (anns ++ setsAnnsV9 a (sets.take j)) a fs = true := by
+  induction sets with
+  | nil => intro j anns fs _ hj; simp at hj
+  | cons x xs ih =>
+    intro j anns fs hw hj
+    simp only [wfSetsLatestV9, Bool.and_eq_true] at hw
+    cases j with
+    | zero =>
+      simp at hj; subst hj
+      simpa [setsAnnsV9] using hw.1.2
+    | succ j =>
+      simp at hj
+      have := ih j _ fs hw.2 hj
+      simpa [setsAnnsV9, List.append_assoc] using this
+
+theorem wfHistoryLatestV9_index (c0 : Cache) (h : List (Bytes × Wire.V9.Msg)) :
+    ∀ (k : Nat) (anns : List Ann) (a : Bytes) (m : Wire.V9.Msg),
+    wfHistoryLatestV9 c0 anns h = true → h[k]? = some (a, m) →
+    wfMsgLatestV9 c0 a (anns ++ histAnnsV9 (h.take k)) m = true := by
+  induction h with
+  | nil => intro k anns a m _ hk; simp at hk
+  | cons x xs ih =>
+    intro k anns a m hw hk
+    obtain ⟨a0, m0⟩ := x
+    simp only [wfHistoryLatestV9, Bool.and_eq_true] at hw
+    cases k with
+    | zero =>
+      simp at hk
+      obtain ⟨rfl, rfl⟩ := hk
+      simpa [histAnnsV9] using hw.1
+    | succ k =>
+      simp at hk
+      have := ih k _ a m hw.2 hk
+      simpa [histAnnsV9, List.append_assoc] using this
+
+/-- the cache part of the NetFlow v9 codec of the pipeline is the decoder model's -/
+theorem v9Codec_decode_cache (ft : Val → Bytes) (c : Cache) (a bs : Bytes) :
+    ((C05.v9Codec ft).decode c a bs).2 = (V9.decode c a bs).2 := by
+  show (match V9.decode c a bs with
+    | (.ok (h, recs, _), c') => (some (a, h, recs), c')
+    | (.error _, c') => (none, c')).2 = _
+  split <;> rename_i heq <;> rw [heq]
+
+/-- the sequential semantics of the pipeline's v9 codec over datagrams that are the encodings of `h` is `v9Run` -/
+theorem cacheAfter_v9Run (ft : Val → Bytes) (ds : List Dgram) : ∀ (h : List (Bytes × Wire.V9.Msg)) (c : Cache),
+    ds.map (fun d => (d.addr, d.bytes)) = h.map (fun x => (x.1, Wire.V9.encodeMsg x.2)) →
+    cacheAfter (C05.v9Codec ft) c ds = (v9Run c h).2 := by
+  induction ds with
+  | nil =>
+    intro h c he
+    cases h with
+    | nil => rfl
+    | cons _ _ => simp at he
+  | cons d ds ih =>
+    intro h c he
+    cases h with
+    | nil => simp at he
+    | cons x xs =>
+      obtain ⟨a, m⟩ := x
+      simp only [List.map_cons, List.cons.injEq, Prod.mk.injEq] at he
+      obtain ⟨⟨ha, hb⟩, hrest⟩ := he
+      show cacheAfter (C05.v9Codec ft) (((C05.v9Codec ft).decode c d.addr d.bytes).2) ds = _
+      rw [v9Codec_decode_cache, ih xs _ hrest, ha, hb]
+      rfl
+
+open Vflow.Spec Vflow.JsonTree Vflow.JsonLex in
+/-- **C04 at the collector with one worker (NetFlow v9)**: the pipeline's codec is the NetFlow v9 decoder / marshal model
+(`C05.v9Codec`), the worker program any `Canonical` one (`Gen.netflowV9Worker`: `C12.netflowV9Worker_canonical`), the
+initial cache `c0` arbitrary, and at most one worker is ever started (`one_worker_in_order`).  Let the first datagrams
+received (`arrivals`, in arrival order; any number of exporters, interleaved in any way) be the RFC 3954 encodings of a
+history `h` in which every data flowset is encoded with the LATEST definition announced before it, in arrival order, by
+the same exporter under the same template id (`wfHistoryLatestV9 c0 [] h`: no cache in the premise; whatever is received
+after `h` is arbitrary).  Then for EVERY schedule, whatever is published for the k-th datagram, `h[k] = (a, m)`, is the
+rendering of the tree of `m`'s header and of exactly the records of `m`'s data flowsets, each read with the template `t`
+its flowset was encoded with (`dataRecsV9`), in wire order — and that `t` is the latest definition exporter `a` announced
+under `t.tid` before that flowset (in the `k` earlier datagrams or earlier in `m`), or what the initial cache held if it
+announced none.
+
+Chain: `one_worker_published_sequential` ∘ `v9_history_roundtrip` ∘ `wfHistoryV9_eq_latest` (= `refinement`) ∘
+`C05.v9_wellformed_published` (C06 roundtrip and the marshal model). -/
+theorem one_worker_latest_template_v9 (ft : Val → Bytes) (hc : Canonical spec cfg.prog) {c0 : Cache}
+    {mem0 : BufId → Bytes} {s : State (C05.v9Codec ft)}
+    (hr : Reach cfg (init (C05.v9Codec ft) c0 mem0) s) (h1 : s.workers.length ≤ 1)
+    (h : List (Bytes × Wire.V9.Msg))
+    (hrecv : h.map (fun x => (x.1, Wire.V9.encodeMsg x.2)) <+: (arrivals s.log).map (fun d => (d.addr, d.bytes)))
+    (hwf : wfHistoryLatestV9 c0 [] h = true)
+    (id : Nat) (p : Bytes) (hp : Event.published id p ∈ s.log) :
+    ∃ k d, (arrivals s.log)[k]? = some d ∧ d.id = id ∧
+      ∀ a m, h[k]? = some (a, m) →
+        d.addr = a ∧ d.bytes = Wire.V9.encodeMsg m ∧
+        p = render (JsonTree.v9Tree a (Wire.V9.expectedHdr m) (C05.toJRecs ft (dataRecsV9 m))) ∧
+        ∀ j t records pad, m.sets[j]? = some (.data t records pad) →
+          latestOr c0 (histAnnsV9 (h.take k) ++ setsAnnsV9 a (m.sets.take j)) a t.tid = some t := by
+  obtain ⟨k, d, hk, hid, hout⟩ := published_sequential hc hr h1 hp
+  refine ⟨k, d, hk, hid, ?_⟩
+  intro a m hkm
+  have hnil : Ids16 [] := by intro e he; simp at he
+  have hwf' : v9WfHistory c0 h = true := by
+    have := wfHistoryV9_eq_latest c0 h [] hnil
+    rw [hwf] at this; exact this
+  obtain ⟨hpre, hm⟩ := wfHistoryV9_index h k c0 a m hwf' hkm
+  obtain ⟨rest, hrest⟩ := hrecv
+  have hklt : k < h.length := by
+    rcases Nat.lt_or_ge k h.length with hl | hl
+    · exact hl
+    · rw [List.getElem?_eq_none hl] at hkm; simp at hkm
+  -- the k-th datagram is the encoding of `m` from `a`
+  have hkd : ((arrivals s.log).map (fun d => (d.addr, d.bytes)))[k]? = some (a, Wire.V9.encodeMsg m) := by
+    rw [← hrest, List.getElem?_append_left (by simpa using hklt)]
+    simp [hkm]
+  rw [List.getElem?_map, hk] at hkd
+  simp only [Option.map_some, Option.some.injEq, Prod.mk.injEq] at hkd
+  obtain ⟨haddr, hbytes⟩ := hkd
+  -- the first k datagrams are the encodings of the first k packets
+  have htake : ((arrivals s.log).take k).map (fun d => (d.addr, d.bytes)) =
+      (h.take k).map (fun x => (x.1, Wire.V9.encodeMsg x.2)) := by
+    rw [List.map_take, ← hrest, List.take_append_of_le_length (by simpa using Nat.le_of_lt hklt), ← List.map_take]
+  have hcache : cacheAfter (C05.v9Codec ft) c0 ((arrivals s.log).take k) = (v9ExpectedRun c0 (h.take k)).2 := by
+    rw [cacheAfter_v9Run ft _ (h.take k) c0 htake, v9_history_roundtrip _ _ hpre]
+  rw [hcache, haddr, hbytes] at hout
+  refine ⟨haddr, hbytes, ?_, ?_⟩
+  · have hrecs : (Wire.V9.expected a (v9ExpectedRun c0 (h.take k)).2 m).1 = dataRecsV9 m := by rw [expectedV9_eq]
+    by_cases hne : (Wire.V9.expected a (v9ExpectedRun c0 (h.take k)).2 m).1 = []
+    · -- a packet without data records is not published
+      have hdec := V9.decode_roundtrip _ a m hm
+      simp only [C05.v9Codec, hdec, outcome, Option.bind_some, hne] at hout
+      simp at hout
+    · have := C05.v9_wellformed_published ft _ a m hm hne
+      rw [hout, hrecs] at this
+      exact Option.some.inj this
+  · intro j t records pad hj
+    have h2 := wfHistoryLatestV9_index c0 h k [] a m hwf hkm
+    simp only [wfMsgLatestV9, Bool.and_eq_true] at h2
+    have h3 := wfSetsLatestV9_index c0 a m.sets j _ _ h2.2 hj
+    simp only [usesLatestV9, List.nil_append, beq_iff_eq] at h3
+    exact h3
+
+/-- … with the worker loop the current source has (`netflowV9Worker` of vflow/netflow_v9.go), a collector started with
+an empty cache, and the whole arrival sequence well formed: `latest` itself -/
+theorem one_worker_latest_template_v9_current_source (ft : Val → Bytes) (hprog : cfg.prog = Gen.netflowV9Worker)
+    {mem0 : BufId → Bytes} {s : State (C05.v9Codec ft)}
+    (hr : Reach cfg (init (C05.v9Codec ft) [] mem0) s) (h1 : s.workers.length ≤ 1)
+    (h : List (Bytes × Wire.V9.Msg))
+    (hrecv : (arrivals s.log).map (fun d => (d.addr, d.bytes)) = h.map (fun x => (x.1, Wire.V9.encodeMsg x.2)))
+    (hwf : wfHistoryLatestV9 [] [] h = true)
+    (id : Nat) (p : Bytes) (hp : Event.published id p ∈ s.log) :
+    ∃ k d a m, (arrivals s.log)[k]? = some d ∧ d.id = id ∧ h[k]? = some (a, m) ∧
+      p = Spec.render (JsonTree.v9Tree a (Wire.V9.expectedHdr m) (C05.toJRecs ft (dataRecsV9 m))) ∧
+      ∀ j t records pad, m.sets[j]? = some (.data t records pad) →
+        latest (histAnnsV9 (h.take k) ++ setsAnnsV9 a (m.sets.take j)) a t.tid = some t := by
+  have hc : Canonical .onMsg cfg.prog := by rw [hprog]; exact netflowV9Worker_canonical
+  obtain ⟨k, d, hk, hid, hall⟩ :=
+    one_worker_latest_template_v9 ft hc hr h1 h (by rw [hrecv]; exact List.prefix_refl _) hwf id p hp
+  have hlen : k < h.length := by
+    have : k < (arrivals s.log).length := by
+      rcases Nat.lt_or_ge k (arrivals s.log).length with hl | hl
+      · exact hl
+      · rw [List.getElem?_eq_none hl] at hk; simp at hk
+    have e := congrArg List.length hrecv
+    simp only [List.length_map] at e
+    omega
+  obtain ⟨⟨a, m⟩, hkm⟩ : ∃ x, h[k]? = some x := ⟨h[k], List.getElem?_eq_getElem hlen⟩
+  obtain ⟨_, _, hp', hl⟩ := hall a m hkm
+  refine ⟨k, d, a, m, hk, hid, hkm, hp', ?_⟩
+  intro j t records pad hj
+  have := hl j t records pad hj
+  simp only [latestOr] at this
+  cases hlat : latest (histAnnsV9 (h.take k) ++ setsAnnsV9 a (m.sets.take j)) a t.tid with
+  | some t' => rw [hlat] at this; exact this
+  | none => rw [hlat] at this; simp [Cache.lookup] at this
+
+/-- the three export packets of one v9 exporter: announce template 256 := definition A (`k5TplA`, IPV4_SRC_ADDR);
+re-announce template 256 := definition B (`k5TplB`, IPV4_DST_ADDR); one data record, encoded with B (its latest) -/
+def k5V9MsgA : Wire.V9.Msg := ⟨1, 1000, 1000, 0, 1, [.tpl [k5TplA] []]⟩
+def k5V9MsgB : Wire.V9.Msg := ⟨1, 1001, 1001, 1, 1, [.tpl [k5TplB] []]⟩
+def k5V9MsgD : Wire.V9.Msg := ⟨1, 1002, 1002, 2, 1, [.data k5TplB [[[10, 0, 0, 9]]] []]⟩
+
+/-- non-vacuity of `one_worker_latest_template_v9`: the history announce A / re-announce B / data satisfies its premise
+(and does not when the data flowset is encoded with the superseded definition A); with ONE worker running the worker
+loop of the current source (`Gen.netflowV9Worker`, `oneWorkerSchedule`) the three RFC 3954 encodings are decoded in the
+order 0, 1, 2 and the value is published as element 12 (the latest definition, B) -/
+example :
+    wfHistoryLatestV9 [] [] [([192, 0, 2, 1], k5V9MsgA), ([192, 0, 2, 1], k5V9MsgB), ([192, 0, 2, 1], k5V9MsgD)] = true ∧
+    dataRecsV9 k5V9MsgD = [[⟨12, 0, .ip [10, 0, 0, 9]⟩]] ∧
+    wfHistoryLatestV9 [] [] [([192, 0, 2, 1], k5V9MsgA), ([192, 0, 2, 1], k5V9MsgB),
+      ([192, 0, 2, 1], ⟨1, 1002, 1002, 2, 1, [.data k5TplA [[[10, 0, 0, 9]]] []]⟩)] = false ∧
+    (let s := run (K := C05.v9Codec k5Ft) { prog := Gen.netflowV9Worker } (init (C05.v9Codec k5Ft) [] (fun _ => []))
+      (oneWorkerSchedule [192, 0, 2, 1] (Wire.V9.encodeMsg k5V9MsgA) (Wire.V9.encodeMsg k5V9MsgB) (Wire.V9.encodeMsg k5V9MsgD))
+     s.workers.length = 1 ∧
+     s.log.reverse.filterMap evTag = [(0, 0), (0, 1), (0, 2), (1, 0), (1, 1), (1, 2)] ∧
+     s.delivered = [(2, str ("{\"AgentID\":\"192.0.2.1\",\"Header\":{\"Version\":9,\"Count\":1,\"SysUpTime\":1002," ++
+       "\"UNIXSecs\":1002,\"SeqNum\":2,\"SrcID\":1},\"DataSets\":[[{\"I\":12,\"V\":\"10.0.0.9\"}]]}"))]) := by
   decide +kernel
 
 end Collector
